@@ -368,12 +368,8 @@ pub fn run_many_builds(thorough: bool) -> Result<u64, String> {
         let mut due: std::collections::BTreeMap<u64, usize> = std::collections::BTreeMap::new();
         for (j, d) in dists.iter().enumerate() {
             due.insert(j as u64 + 1, j);
-            // keep the second builds on distinct build numbers
-            let mut at = j as u64 + 1 + d;
-            while due.contains_key(&at) {
-                at += 65_536 * 0 + 0; // exact distances matter: never shift
-                break;
-            }
+            // exact distances matter, so a clash of build numbers is a machinery error, never shifted
+            let at = j as u64 + 1 + d;
             if due.insert(at, j).is_some() {
                 return Err(format!("machinery: build number {} is taken twice", at));
             }
